@@ -52,8 +52,10 @@ THEOREMS = [
     "Klong.C14.pinned_no_stuck_waiter_fails",
 ]
 
-VALUES = ["a0", "a1", "a2", "dup", "push", "boom"]     # bodies; "boom" fails when evaluated locally
+VALUES = ["a0", "a1", "a2", "dup", "push", "boom",     # bodies; "boom" fails when evaluated locally
+          "x" * 65537, "y" * 200000, "z" * 65000]       # pickled: > 64 KiB, ~200 KB, just under 64 KiB
 FAIL = [5]
+LARGE = [6, 7, 8]
 
 
 # --------------------------------------------------------------------------- one case
@@ -86,7 +88,7 @@ def detect_variant():
 
 
 def run_case(ctx, drv, case, variant, record=None):
-    from .c14_harness import Harness, HarnessHang
+    from .c14_harness import Harness, HarnessHang, show_bytes
     kinds, stream, sched = case["callers"], [tuple(x) for x in case["stream"]], case["sched"]
     h = Harness(kinds, VALUES, stream, [VALUES[i] for i in FAIL])
     hang_step = None
@@ -106,8 +108,8 @@ def run_case(ctx, drv, case, variant, record=None):
         for c in h.callers:
             res.append(dict(k=c.k, kind=c.kind, started=c.thread is not None, finished=c.finished,
                             outcome=h.outcome(c) if c.finished else None,
-                            raw=c.result, answers=[b.hex() for b in c.answers],
-                            must_ok=c.must_ok.hex() if c.must_ok is not None else None))
+                            raw=c.result, answers=[show_bytes(b) for b in c.answers],
+                            must_ok=show_bytes(c.must_ok) if c.must_ok is not None else None))
         spin = h.spin
         crash = None
         if h.run_task.done() and not h.run_task.cancelled() and h.run_task.exception() is not None:
@@ -116,6 +118,7 @@ def run_case(ctx, drv, case, variant, record=None):
         shape = list(h.cleanup_shape)
         notes = list(h.notes)
         close_hex = h.close_body.hex()
+        close_show = show_bytes(h.close_body)
         fail_hex = [h.bodies[i].hex() for i in FAIL]
     finally:
         h.close()
@@ -140,7 +143,7 @@ def run_case(ctx, drv, case, variant, record=None):
                 ctx.oracle_fail("c14:wrong-answer", case,
                                 f"first frame fed with id {r['k']}: {r['answers'][:1]}", o,
                                 "a call returned a value that is not the first response to its own request")
-        if o.startswith("ok:") and r["kind"] != "call" and close_hex not in r["answers"]:
+        if o.startswith("ok:") and r["kind"] != "call" and close_show not in r["answers"]:
             ctx.oracle_fail("c14:close-without-ack", case, "close() returns only after its ack", observed)
         if r["must_ok"] is not None and o != "ok:" + r["must_ok"]:
             ctx.oracle_fail("c14:answered-call-failed", case, "ok:" + r["must_ok"], o,
@@ -197,9 +200,12 @@ def run_case(ctx, drv, case, variant, record=None):
 
 # --------------------------------------------------------------------------- generators
 
-def frame_len(b):
-    body = pickle.dumps(VALUES[b]) if b != "close" else None
-    return 20 + (len(body) if body is not None else CLOSE_LEN[0])
+def frame_len(b, _cache={}):
+    if b == "close":
+        return 20 + CLOSE_LEN[0]
+    if b not in _cache:
+        _cache[b] = 20 + len(pickle.dumps(VALUES[b]))
+    return _cache[b]
 
 
 CLOSE_LEN = [0]
@@ -220,6 +226,8 @@ def cut_classes(stream):
     pts = {0, total}
     for s, e in offs:
         pts |= {s, s + 1, s + 15, s + 16, s + 17, s + 19, s + 20, min(s + 21, e), e - 1, e}
+        if e - s > 60000:       # long body: around the 64 KiB mark, in the middle, near the end
+            pts |= {s + 20 + 4096, s + 20 + 65535, s + 20 + 65536, min(s + 20 + 65537, e - 1), (s + e) // 2, e - 2}
     return sorted(p for p in pts if 0 <= p <= total)
 
 
@@ -389,6 +397,48 @@ def gen_close(rng, thorough, count):
     return out
 
 
+def gen_large(rng, thorough):
+    """response frames with bodies beyond 64 KiB (and just below): connection loss inside the id,
+    the length and at several points inside the long body, right after it, with 1..3 calls
+    pending; and the same frames delivered whole under fragmentation"""
+    combos = []
+    for big in LARGE:
+        for n in (1, 2, 3):
+            for pos in range(n):          # which call gets the long answer
+                combos.append((big, n, pos))
+    combos = rng.sample(combos, 15 if thorough else 9)
+    for big, n, pos in combos:
+        order = list(range(n))
+        rng.shuffle(order)
+        answered = order[:rng.randrange(1, n + 1)]
+        if pos not in answered:
+            answered.append(pos)
+        small_first = rng.random() < 0.5
+        answered = [k for k in answered if k != pos]
+        stream = ([[k, k] for k in answered] + [[pos, big]]) if small_first else \
+                 ([[pos, big]] + [[k, k] for k in answered])
+        offs, total = stream_layout(stream)
+        s, e = offs[len(answered)] if small_first else offs[0]
+        inside = [s + 5, s + 17, s + 20, s + 21, s + 20 + 4096, s + 20 + 65535, s + 20 + 65536,
+                  min(s + 20 + 65537, e - 1), (s + e) // 2, e - 1, e]
+        pts = inside if thorough else rng.sample(inside[:2], 1) + rng.sample(inside[2:-1], 3) + [e]
+        for p in pts:
+            for loss in (rng.choice([["EOF"], ["EOF"], ["RESET"]]),):
+                sched = bring_to([4] * n)
+                mid = rng.choice([q for q in inside if q < p] or [0])
+                sched += [["F", 0, mid]] + ([["IOS"]] if rng.random() < 0.5 else []) + [["F", mid, p]]
+                if rng.random() < 0.6:
+                    sched.append(["IOS"])
+                sched += [loss, ["IOS"]]
+                yield dict(kind="large-loss", cut=cut_class_name(stream, p), callers=["call"] * n,
+                           stream=stream, sched=sched)
+        for _ in range(3 if thorough else 1):
+            a, b = sorted(rng.sample(inside, 2))
+            sched = bring_to([4] * n) + [["F", 0, a]] + ([["IO"]] if rng.random() < 0.5 else []) + \
+                [["F", a, b], ["IO"] if rng.random() < 0.5 else ["IOS"], ["F", b, total], ["IOS"]]
+            yield dict(kind="large-whole", callers=["call"] * n, stream=stream, sched=sched)
+
+
 def gen_after_gone(rng, count):
     """calls made after the connection has gone"""
     for _ in range(count):
@@ -491,6 +541,9 @@ def lean_label(l):
     if op in ("reg", "submit", "send", "drain", "deliver"):
         return f".{op} {f['c']}"
     if op == "feed":
+        if "r" in f:
+            return ".feed (" + " ++ ".join(f"List.replicate {it.split('*')[1]} {int(it.split('*')[0], 16)}"
+                                            for it in f["r"].split(",")) + ")"
         bs = bytes.fromhex(f.get("b", ""))
         return ".feed [" + ", ".join(str(x) for x in bs) + "]"
     return {"recv": ".recv", "clr": ".clr", "cl": ".cl", "eof": ".eof", "reset": ".reset",
@@ -535,7 +588,7 @@ def run(ctx):
         logging.disable(logging.NOTSET)
         raise
     ctx.rule = ("schedules of caller-thread steps, io-loop iterations, stream feeds (cut at every boundary class: "
-                "between frames, inside id, inside length, inside body), EOF/reset/closed-transport/broken-writer "
+                "between frames, inside id, inside length, inside body; bodies up to 200 KB), EOF/reset/closed-transport/broken-writer "
                 "faults and racing steps inside the cleanup, for <= 4 callers (call / close / shutdown); "
                 "distinct = distinct (callers, stream, schedule); non-trivial = at least three machine labels")
     ctx.assumptions += [
@@ -556,6 +609,7 @@ def run(ctx):
             kernel_trace_obligation(ctx, variant, rec[0])
         gens = [
             gen_orders(ctx.rng, not quick),
+            gen_large(ctx.rng, not quick),
             gen_loss(ctx.rng, not quick, 80),
             gen_race(ctx.rng, not quick, 100),
             gen_close(ctx.rng, not quick, 220 if quick else 1200),
